@@ -114,6 +114,7 @@ Print Assumptions C14_macho_fileoffset_segment.
 (* Intel-HEX: every record decodes to what it encodes; a line whose checksum byte is wrong is rejected. *)
 Theorem C14_hex_roundtrip : forall addr typ data,
   Forall byte data -> Z.of_nat (length data) < 256 -> 0 <= addr < 65536 -> byte typ ->
+  hex_rec_ok typ (Z.of_nat (length data)) data = true ->
   hex_decode (hex_encode addr typ data) = Some (Z.of_nat (length data), addr, typ, data).
 Proof. exact hex_roundtrip. Qed.
 Print Assumptions C14_hex_roundtrip.
@@ -130,7 +131,7 @@ Print Assumptions C14_hex_address_composition.
 
 Theorem C14_srec_roundtrip : forall t addr data,
   In t [0;1;2;3;5;6;7;8;9] -> Forall byte data -> Z.of_nat (srec_asz t + length data + 1) < 256 ->
-  0 <= addr < 256 ^ Z.of_nat (srec_asz t) ->
+  0 <= addr < 256 ^ Z.of_nat (srec_asz t) -> (t = 5 \/ t = 6 -> data = []) ->
   srec_decode (srec_encode t addr data) = Some (t, addr, data).
 Proof. exact srec_roundtrip. Qed.
 Print Assumptions C14_srec_roundtrip.
